@@ -71,9 +71,33 @@ package blake2s
 //@ ensures (sameobj(result, sum) && off(result) == off(sum)) || newobj(result)
 //@ ensures d.size == old(d.size) && d.offset == old(d.offset)
 
+//@ pred be32(b, o) = b[o]*16777216 + b[o+1]*65536 + b[o+2]*256 + b[o+3]
+// w32(b, o, x): the four bytes of b from o are x, most significant byte first
+//@ pred w32(b, o, x) = b[o] == (x / 16777216) % 256 && b[o+1] == (x / 65536) % 256 && b[o+2] == (x / 256) % 256 && b[o+3] == x % 256
+
+//@ func appendUint32
+//@ props C07
+//@ modifies b[len(b):len(b)+4]
+//@ ensures len(result) == len(b) + 4 && w32(result, len(b), x) && forall(i, 0, len(b), result[i] == old(b[i]))
+//@ ensures implies(cap(b) >= len(b) + 4, sameobj(result, b) && off(result) == off(b) && cap(result) == cap(b)) && implies(cap(b) < len(b) + 4, newobj(result))
+
+// MarshalBinary writes magic | h[0..7] | c[0..1] (big-endian 32-bit words) | size | block | offset: 109 bytes that
+// UnmarshalBinary (below) reads back field by field
+//@ func (*digest).MarshalBinary
+//@ props C07
+//@ requires dinv(d)
+//@ ensures iff(result1 != nil, d.keyLen != 0) && implies(result1 != nil, result0 == nil)
+//@ ensures implies(result1 == nil, len(result0) == 109 && result0[0] == 'b' && result0[1] == '2' && result0[2] == 's' && result0[43] == d.size && result0[108] == d.offset)
+//@ ensures implies(result1 == nil, forall(i, 0, 8, w32(result0, 3 + 4*i, d.h[i])) && w32(result0, 35, d.c[0]) && w32(result0, 39, d.c[1]))
+//@ ensures implies(result1 == nil, forall(i, 0, 64, result0[44 + i] == d.block[i]))
+//@ loop 1 invariant 0 <= i && i <= 8 && len(b) == 3 + 4*i && cap(b) == 109 && newobj(b) && b[0] == 'b' && b[1] == '2' && b[2] == 's'
+//@ loop 1 invariant forall(k, 0, i, w32(b, 3 + 4*k, d.h[k])) && onlyobjs(b)
+//@ canary ensures result1 == nil
+
 //@ func (*digest).UnmarshalBinary
 //@ props C07
 //@ modifies d.*
+//@ ensures implies(result == nil, forall(i, 0, 8, d.h[i] == be32(b, 3 + 4*i)) && d.c[0] == be32(b, 35) && d.c[1] == be32(b, 39))
 //@ ensures implies(result == nil, len(b) == 109 && b[0] == 'b' && b[1] == '2' && b[2] == 's')
 //@ ensures implies(result == nil, d.size == b[43] && d.offset == b[108] && d.keyLen == old(d.keyLen))
 //@ ensures implies(result == nil, forall(i, 0, 64, d.block[i] == b[44+i]))
